@@ -77,6 +77,13 @@ def variants(name, f, rng, n_extra=2):
             kw['source_type'] = rng.choice(SOURCES)
         if kw:
             out.append(kw)
+    # small integer selectors (default 0 or 1: `mode`, `devtype`, …): every small value once, all other knobs at defaults
+    for k in ints:
+        v = d['numeric'][k]
+        if isinstance(v, int) and 0 <= v < 2 and any(t in k for t in ('mode', 'type')):
+            for alt in range(0, 5):
+                if alt != v:
+                    out.append({k: alt})
     # every indicator that smooths through ma(): the common averages once each, all other knobs at their defaults
     for mt in (1, 2, 3):
         if mats:
